@@ -8,6 +8,8 @@ PROP = "C08"
 TARGETS = ["NetqasmVerif.Props.C08"]
 M = "NetqasmVerif.Props.C08"
 THEOREMS = [(M, "NQ.C08." + n) for n in [
+    "expansions_have_no_branch", "index_is_expansion_start", "index_monotone", "output_structure",
+    "branch_lands_on_expansion", "nongate_order",
     "f10_counterexample_asserts", "f10_counterexample_stale", "f26_fixed_witness"]]
 TRANSLATORS = ["nv_expand"]
 LEVEL_TEXT = (
